@@ -249,6 +249,12 @@ def convert_and_export(c, sgy, d):
     else:
         hd = 'exhaustive' if c['hv'] in ('random', 'extreme') or c['vary_delay'] else 'heuristic'
         write_segy_sgz(sgy, sgz, bpv=c['bpv'], blockshape=bs, header_detection=hd)
+        if c.get('adv'):
+            # the export of the RE-BLOCKED file (2-bit default layout -> 64x64x4): same traces, same headers
+            sgz2 = sgz[:-4] + '_adv.sgz'
+            with SgzConverter(sgz) as cv0:
+                quiet(cv0.convert_to_adv_sgz, sgz2)
+            sgz = sgz2
         del _created[:]
         with SgzConverter(sgz) as conv:
             # what the same object served before must not matter (D46/D47): a tracefield grid (leaves the header memo in
@@ -548,6 +554,14 @@ def main():
                         '2d': dict(nt=9)}[kind]
                 c.update(kind=kind, vary_delay=True, via='api', k=k0 + 2 + j, hv='default', bin='plain', ext=0, **base)
                 c['bpv'], c['bs'] = (4, None)
+                cases.append(c)
+            # re-blocked files: regular and irregular (several holes) 2-bit sources, exported from the 64x64x4 file
+            for j, kind in enumerate(['irregular', 'regular', 'irregular'] if not quick else ['irregular', 'regular']):
+                c = gen_case(2500 + j, True)
+                base = {'regular': dict(n_il=5, n_xl=7, il0=3, xl0=10, il_step=2, xl_step=3),
+                        'irregular': dict(n_il=6, n_xl=7, il0=10, xl0=100, il_step=1, xl_step=2, mseed=31 + j)}[kind]
+                c.update(kind=kind, via='api', k=len(cases), hv='default', bin='plain', ext=0, vary_delay=False, adv=True, scalar=0, **base)
+                c['bpv'], c['bs'] = (2, None)
                 cases.append(c)
             # a 2D line in the (1, 4, N) layout whose traces span SEVERAL z-blocks (the trace-range loader path of the export)
             c = gen_case(3000, True)
